@@ -132,6 +132,16 @@ the failing case (see `known_findings.json`); a violation outside those predicat
 * **C06, curved paths under magnification**: a path with circular bends that is polygonised after being magnified
   has more arc points than its magnified leaf outline; for that leaf kind outlines are compared as closed polylines
   within 2.5 path tolerances times the total magnification instead of vertex by vertex.
+* **C13, set-up through the library** (seeded/C13-12): the harness built its key-holed ring inputs with gdstk's own
+  `boolean()`; a change in the hole handling shared by `boolean()` and `offset()` made the set-up fail and the check ended
+  `CHECK-BROKEN` (exit 2) instead of reporting.  Not a false alarm but a wrong kind of answer: the inputs are now built by the
+  harness itself (rasterised cut-outs, hand-made slits, self-checked by the harness's own winding), no library call remains
+  in any set-up step, and the defect shows as `offset` violations.
+* **C17, a file that every reader rejects** (library-name family, F16): the first version reported "full load of a legal
+  file fails" for a 65530-character library name although `gds_info` and `gds_units` failed in the same way - C17 states
+  agreement between the readers, and they agreed.  The defect itself is genuine (F16, repaired, now guarded by C03's
+  long-record family); C17 reports a failing full load only when a lightweight query still answers, and counts files that
+  every reader rejects alike.
 * Observations deliberately NOT demanded (counted in evidence): GDSII property order reversal on
   load (C01), -0.0 reading back as +0.0 and double rounding of ratio reals with operands above
   2^53 (C19), `element_center` index slip for tapered
@@ -193,7 +203,14 @@ usually zero* (C08: arc rotation), *files whose parts were written at different 
 predecessors of continuation sections* (C15), *boundary values of a number format* (C01/C03: exact powers
 of 16 in 8-byte reals), *property lists built by overwriting* (C03), *interfaces that build the same object
 another way* (C07: command strings, also stopping early), *curved content under magnifying references*
-(C06: circular bends) and *dependency graphs in which a shared node precedes a unique one* (C17).
+(C06: circular bends), *dependency graphs in which a shared node precedes a unique one* (C17),
+*containers that have shrunk* (C17: filter sets after deletions), *path offsets together with several joints* (C01),
+*coordinates whose products do not fit a double* (C14), *values wider than the field a shortcut assumes* (C20: attributes
+above 2^16; C02/C07: deltas above 2^31; C19: odd integers above 2^52; C13: scaled coordinates above 2^31),
+*records at the limits of a length field* (C03/C17: 2^15 and 65534 bytes; C08: more than 8190 points),
+*exact ties of a rounding rule* (C04), *distances exactly at a tolerance* (C01), *angles next to and on the negative side of
+the special ones* (C09, C10, C06), *absolute magnitudes far from 1* (C15) and *caller-owned containers that are used a
+second time* (C16).
 
 **(d) Benign changes: looking for false alarms.**  The reverse experiment: 20 fresh sub-agents (property
 text and a scratch worktree only, `tools/benign_prompt.py`) each produced three realistic maintenance
